@@ -97,6 +97,7 @@ EVENT = ["is_inst(EV, 'Event')", "implies(is_inst(EV, 'ActionEvent'), has(EV, 'a
 contract(
     SM, "_resolve_action_conflicts", prop="C05",
     block=("if head == picked_head", "<end>"), loop_body=True,      # the whole body of `for head in ordered_heads:`
+    must_reach=["_abort_flow(state, flow_state, head.matching_scores)", "advancing_heads.append(head)", "head.position = ..."],   # (vacuity guard)
     vars={"state": "V", "head": "V", "picked_head": "V", "winning_event": "V", "advancing_heads": "V"},
     ghost_lists=["aborted", "generated", "cmp", "events"],
     requires=STATE + HEAD("head") + ["is_inst(picked_head, 'FlowHead')", "has(picked_head, 'uid')", "is_str(picked_head.uid)",
